@@ -485,6 +485,7 @@ def main():
         emit_str(k, fconsts.get(k, "<missing>"))
     out.append("def TARGET_LINE_LENGHT : Nat := %d" % fconsts.get('TARGET_LINE_LENGHT', 0))
     emit_strs('PRIORITY_PREFIXES_FOR_SHAPES', nsmod.get('_PRIORITY_PREFIXES_FOR_SHAPES', []))
+    emit_strs('SHACL_PRIORITY_PREFIXES', module_consts(parse("shexer/io/shacl/formater/shacl_serializer.py")).get('_SHACL_PRIORITY_PREFIXES', []))
     emit_strs('TTL_CLOSURES', ttl.get('_CLOSURES', []))
     emit_strs('TTL_RDF_TYPE_CONTRACTED', ttl.get('_RDF_TYPE_CONTRACTED', []))
     emit_strs('TTL_INI_BASE_URIS', ttl.get('_INI_BASE_URIS', []))
